@@ -317,3 +317,33 @@ package participle
 //@   allow-panic 1 "unreachable for a built parser: Build validates every Elide() name against the lexer's symbols"
 //@   loop 1 invariant -1 <= rangeindex && rangeindex < len(p.elide)
 //@   loop 1 decreases len(p.elide) - rangeindex
+
+// ---------------------------------------------------------------------------------------------
+// nodes.go: numeric conversion (C17)
+// ---------------------------------------------------------------------------------------------
+
+//@ spec fn isIntKind(k reflect.Kind) bool = k == reflect.Int || k == reflect.Int8 || k == reflect.Int16 || k == reflect.Int32 || k == reflect.Int64
+//@ spec fn isUintKind(k reflect.Kind) bool = k == reflect.Uint || k == reflect.Uint8 || k == reflect.Uint16 || k == reflect.Uint32 || k == reflect.Uint64
+//@ spec fn isFloatKind(k reflect.Kind) bool = k == reflect.Float32 || k == reflect.Float64
+// bitsOf: the bit size strconv must be given for a field of this kind (the property's table).
+//@ spec fn bitsOf(k reflect.Kind) int = ite(k == reflect.Int8 || k == reflect.Uint8, 8, ite(k == reflect.Int16 || k == reflect.Uint16, 16,
+//@      ite(k == reflect.Int32 || k == reflect.Uint32 || k == reflect.Float32, 32, ite(k == reflect.Int64 || k == reflect.Uint64 || k == reflect.Float64, 64, strconv.IntSize))))
+
+//@ func sizeOfKind [C17 C06]
+//@   requires isIntKind(kind) || isUintKind(kind) || isFloatKind(kind)
+//@   pure
+//@   ensures result == bitsOf(kind)
+
+//@ func conform [C17 C06]
+//@   requires t != nil
+//@   ensures err != nil ==> out == nil
+//@   loop 1 invariant -1 <= rangeindex && rangeindex < len(values)
+//@   loop 1 decreases len(values) - rangeindex
+//@   loop 2 nonterminating-ok
+//@   loop 2 invariant -1 <= rangeindex && rangeindex < len(values)
+//@   before call strconv.ParseInt#1: assert isIntKind(kind) && base == 0 && bitSize == bitsOf(kind)
+//@   before call strconv.ParseUint#1: assert isUintKind(kind) && base == 0 && bitSize == bitsOf(kind)
+//@   before call strconv.ParseFloat#1: assert isFloatKind(kind) && bitSize == bitsOf(kind)
+//@   before call (reflect.Value).SetInt#1: assert x == n
+//@   before call (reflect.Value).SetUint#1: assert x == n
+//@   before call (reflect.Value).SetFloat#1: assert x == n
